@@ -5,17 +5,18 @@
 // (row by row and in batches, on three stores) to see that they do not panic.
 //
 // What is generated:
-//   grid    every aggregate function x 0..3 arguments x 9 places: alone, with ORDER BY + LIMIT,
-//           next to a GROUP BY key, under an arithmetic / comparison operator, next to a constant
-//           that lets the folder REMOVE the call (`(F > 0) & false`, `true | (F > 0)`), inside a
-//           scalar call, inside an aggregate call, in WHERE, as GROUP BY item
-//   const   quantile x 26 second arguments, group_concat x 21 separators (literals of every kind,
-//           key / value, foldable and unfoldable expressions, failing expressions, field names of
-//           other select fields) x 3 tails
-//   rules   fields missing from GROUP BY, GROUP BY without aggregate, ORDER BY on aggregates and on
-//           names that are no fields, upper-case names, unknown functions next to aggregates
-//   random  seeded combinations: 1..3 fields from the pieces above, optional GROUP BY / ORDER BY /
-//           LIMIT, optional second fault
+//
+//	grid    every aggregate function x 0..3 arguments x 9 places: alone, with ORDER BY + LIMIT,
+//	        next to a GROUP BY key, under an arithmetic / comparison operator, next to a constant
+//	        that lets the folder REMOVE the call (`(F > 0) & false`, `true | (F > 0)`), inside a
+//	        scalar call, inside an aggregate call, in WHERE, as GROUP BY item
+//	const   quantile x 26 second arguments, group_concat x 21 separators (literals of every kind,
+//	        key / value, foldable and unfoldable expressions, failing expressions, field names of
+//	        other select fields) x 3 tails
+//	rules   fields missing from GROUP BY, GROUP BY without aggregate, ORDER BY on aggregates and on
+//	        names that are no fields, upper-case names, unknown functions next to aggregates
+//	random  seeded combinations: 1..3 fields from the pieces above, optional GROUP BY / ORDER BY /
+//	        LIMIT, optional second fault
 package main
 
 import (
